@@ -54,6 +54,32 @@ StabilityCheckI(I) == LET FS == { s \in 1..N : I[s] = {} }
                           g == GroundedInternal(red, N)
                       IN \A s \in 1..N : TV3(g[s], N) = TV3(I[s], N)
 
+(***************************************************************************)
+(* The built-in heuristics (lib/src/adf/heuristics.rs) as deterministic    *)
+(* refinements of the nondeterministic pick: Simple, and the two counting  *)
+(* heuristics (path counts of the canonical diagram of each residual       *)
+(* function under the statement order, passive variable impact, first      *)
+(* minimum of Iterator::min_by, value = more_models of the path counts).   *)
+(***************************************************************************)
+CofN(f, s, b) == { A \in Assign(N) : (IF b THEN A \cup {s} ELSE A \ {s}) \in f }
+DepsN(f) == { s \in 1..N : CofN(f, s, TRUE) # CofN(f, s, FALSE) }
+RECURSIVE PathCntN(_)
+PathCntN(f) == IF f = TOPF_ THEN <<0, 1>> ELSE IF f = {} THEN <<1, 0>>
+               ELSE LET v == CHOOSE s \in DepsN(f) : \A t \in DepsN(f) : s <= t
+                        lo == PathCntN(CofN(f, v, FALSE))
+                        hi == PathCntN(CofN(f, v, TRUE))
+                    IN <<lo[1] + hi[1], lo[2] + hi[2]>>
+MinPathsN(f) == LET pc == PathCntN(f) IN IF pc[1] < pc[2] THEN pc[1] ELSE pc[2]
+MoreModelsN(f) == LET pc == PathCntN(f) IN pc[2] >= pc[1]
+PassiveN(v, I) == Cardinality({ s \in 1..N : v \in DepsN(I[s]) })
+LessPair(a, b) == a[1] < b[1] \/ (a[1] = b[1] /\ a[2] < b[2])
+HeuKey(h, v, I) == IF h = "MinModMinPathsMaxVarImp" THEN <<MinPathsN(I[v]), PassiveN(v, I)>> ELSE <<PassiveN(v, I), MinPathsN(I[v])>>
+HeuPick(h, I) ==
+  LET U == (1..N) \ Decided(I) IN
+  IF h = "Simple" THEN << CHOOSE v \in U : \A w \in U : v <= w, TRUE >>
+  ELSE LET v == CHOOSE x \in U : \A w \in U \ {x} : LessPair(HeuKey(h, x, I), HeuKey(h, w, I)) \/ (HeuKey(h, x, I) = HeuKey(h, w, I) /\ x < w)
+       IN << v, MoreModelsN(I[v]) >>
+
 Init == /\ adf \in [1..N -> Funs]
         /\ cur = GroundedInternal(adf, N)
         /\ stack = <<>> /\ hist = <<>> /\ store = NG!EmptyStore
